@@ -16,8 +16,26 @@ ASSUMPTIONS = ["objective totals are compared with 1e-9 relative tolerance (floa
                "the optimality clause is checked only when no objective exceeds its declared best possible score on the space"]
 
 
+def binding_budget_case(rng):
+    """an edits budget given as a percentage that allows one edit, on a problem with two or more free positions and an
+    objective (or constraints) that would like more edits"""
+    from gen import hard
+    n = rng.randint(6, 12)
+    seq = hard.rand_seq(rng, n)
+    k = rng.randint(2, 4)
+    free = sorted(rng.sample(range(n), k))
+    frozen = [i for i in range(n) if i not in free]
+    pct = next(p_ for p_ in range(1, 101) if (p_ * n) // 100 == 1)
+    cons = [dict(kind="keep_idx", indices=frozen), dict(kind="keep_edits", max_edits_percent=pct, location=None)]
+    objs = [dict(kind="change_obj", location=None, amount_percent=None, boost=1)]
+    return dict(sequence=seq, constraints=cons, objectives=objs, settings=problems.rand_settings(rng), np_seed=rng.randint(0, 10 ** 6))
+
+
 def gen_cases(rng, n):
     for i in range(n):
+        if i % 9 == 4:
+            yield dict(desc=binding_budget_case(rng), op="exh_optimize")
+            continue
         from props import C04
         for _try in range(10):
             d = problems.rand_small_problem(rng, objectives=(i % 2 == 1))
